@@ -63,13 +63,17 @@ class Check:
         self.known = load_known(pid)
         self.uni_stats = []
         self.blocks = set()
+        self.slow = []
 
     # artefacts ----------------------------------------------------------
     def program(self, features=()):
         key = tuple(sorted(features))
+        if key not in self._prog and key in _PROG_CACHE.get('p', {}):
+            self._prog[key] = _PROG_CACHE['p'][key]
         if key not in self._prog:
             mp = artifacts.ensure_mir(features)
             self._prog[key] = program.Program(mp, artifacts.REPO)
+            _PROG_CACHE.setdefault('p', {})[key] = self._prog[key]
         return self._prog[key]
 
     def bridge(self, profile='dev', ignore_case=False):
@@ -141,7 +145,11 @@ class Check:
         axioms.  on_sat(model) -> ('violation', replay_path, what) |
         ('known', what) | ('spurious', why)"""
         self.obligations += 1
+        t_ob = time.time()
         r, model = self.solve(uni, negated_property)
+        dt = time.time() - t_ob
+        if dt > 1.0:
+            self.slow = sorted(self.slow + [(round(dt, 2), name)], reverse=True)[:10]
         if cvc5:
             self.cross_check_cvc5(uni, [negated_property], r)
         if sample is not None and len(self.samples) < 12:
@@ -158,6 +166,65 @@ class Check:
         else:
             self.inconclusive.append('%s: model did not reproduce: %s' % (name, verdict[1]))
         return False
+
+    # parallel units -------------------------------------------------------
+    def export(self):
+        return {
+            'obligations': self.obligations, 'discharged': self.discharged, 'sat': self.sat,
+            'queries': self.queries, 'solver_time': self.solver_time, 'samples': self.samples,
+            'violations': self.violations, 'known_hits': self.known_hits, 'inconclusive': self.inconclusive,
+            'replays_ok': self.replays_ok, 'cvc5_checked': self.cvc5_checked, 'cvc5_agree': self.cvc5_agree,
+            'blocks': len(self.blocks), 'blockset': sorted(self.blocks), 'extra': self.extra,
+            'uni': [dict(u.stats, max_loop=u.max_loop) for u in self.uni_stats],
+            'slow': self.slow,
+        }
+
+    def merge(self, d):
+        self.obligations += d['obligations']
+        self.discharged += d['discharged']
+        self.sat += d['sat']
+        self.queries += d['queries']
+        self.solver_time += d['solver_time']
+        for sm in d['samples']:
+            if len(self.samples) < 12:
+                self.samples.append(sm)
+        self.violations += [tuple(v) for v in d['violations']]
+        self.known_hits += d['known_hits']
+        self.inconclusive += d['inconclusive']
+        self.replays_ok += d['replays_ok']
+        self.cvc5_checked += d['cvc5_checked']
+        self.cvc5_agree += d['cvc5_agree']
+        self.blocks |= {tuple(b) for b in d['blockset']}
+        self.slow = sorted(self.slow + d['slow'], reverse=True)[:10]
+        for k, v in d['extra'].items():
+            if isinstance(v, (int, float)) and isinstance(self.extra.get(k, 0), (int, float)):
+                self.extra[k] = self.extra.get(k, 0) + v
+            else:
+                self.extra.setdefault(k, v)
+        for st in d['uni']:
+            u = engine.Universe()
+            ml = st.pop('max_loop')
+            u.stats.update(st)
+            u.max_loop = ml
+            self.uni_stats.append(u)
+
+    def run_units(self, units, fn, jobs=None):
+        """run fn(sub_check, unit) for every unit in forked worker processes
+        (16 cores), merge what they found.  A worker that dies or raises makes
+        the whole check inconclusive."""
+        import multiprocessing as mp
+        jobs = jobs or int(os.environ.get('VERIF_JOBS', '14'))
+        # artefacts are built once, before forking
+        self.program()
+        artifacts.ensure_bridge()
+        if jobs <= 1 or len(units) <= 1:
+            for u in units:
+                self.merge(_unit_worker((self.pid, self.level, self.tier, fn, u)))
+            return
+        ctx = mp.get_context('fork')
+        with ctx.Pool(min(jobs, len(units))) as pool:
+            for d in pool.imap_unordered(_unit_worker, [(self.pid, self.level, self.tier, fn, u) for u in units]):
+                self.merge(d)
 
     # reporting ------------------------------------------------------------
     def write_replay(self, name, payload):
@@ -210,6 +277,7 @@ class Check:
             'checker_cmd': 'python3-vt checks/%s.py %s' % (self.pid, self.tier),
             'trusted_base': ['mirsym MIR executor', 'callee models (DESIGN 2.3)', 'z3 4.x', 'rustc nightly MIR dump'],
             'repo_hash': artifacts.repo_hash(),
+            'slowest_obligations': self.slow,
         }
         cov.update({k: v for k, v in self.extra.items() if k not in cov or k == 'programs'})
         ev = {
@@ -243,6 +311,24 @@ class Check:
         print('%s: %d/%d obligations discharged (%d known finding(s)), %d paths, %.1fs' % (
             self.pid, self.discharged, self.obligations, len(set(self.known_hits)), paths, wall))
         sys.exit(0)
+
+
+_PROG_CACHE = {}
+
+
+def _unit_worker(a):
+    pid, level, tier, fn, unit = a
+    sub = Check(pid, level, argv=[tier])
+    sub._prog = _PROG_CACHE.setdefault('p', {})
+    try:
+        fn(sub, unit)
+    except (Unsupported, Inconclusive, BoundExceeded) as e:
+        sub.inconclusive.append('%s: %s: %s' % (unit if isinstance(unit, (str, tuple)) else '?', type(e).__name__, e))
+    except Exception as e:
+        sub.inconclusive.append('unit %r: internal error %r\n%s' % (unit, e, traceback.format_exc()[-1500:]))
+    for b in sub._bridges.values():
+        b.close()
+    return sub.export()
 
 
 def load_known(pid):
